@@ -663,6 +663,25 @@ func (e *Exec) evalClauseAt(fr *Frame, cl Clause, st *State, results []Val) *Ter
 		case pkLocal:
 			a := e.eng.localAlloc(fr.fn, p)
 			if a == nil {
+				// a variable of the enclosing function captured by this function literal
+				if fv := e.eng.localFreeVar(fr.fn, p); fv != nil {
+					if bv, ok := fr.vals[fv]; ok {
+						v := e.load(st, bv, deref(fv.Type()))
+						if p.Snap {
+							if fr.oldOverride == nil {
+								e.fail("clause %s: before(%s) needs a 'since' anchor", cl.Label, strings.TrimPrefix(p.Name, "before_"))
+							}
+							v = e.load(fr.oldOverride, bv, deref(fv.Type()))
+						}
+						args = append(args, v)
+						ov := v
+						if fr.oldOverride != nil && (isStructT(deref(fv.Type())) || isArrayT(deref(fv.Type()))) {
+							ov = e.load(fr.oldOverride, bv, deref(fv.Type()))
+						}
+						oldArgs = append(oldArgs, ov)
+						continue
+					}
+				}
 				e.fail("clause %s: local %s not found", cl.Label, p.Name)
 			}
 			av, ok := fr.allocs[a]
@@ -875,6 +894,17 @@ func (e *Exec) callByContract(fr *Frame, st *State, ins ssa.Instruction, sp *Fun
 		ret = r
 	}
 	for _, cl := range sp.Ensures {
+		// a postcondition that speaks about the callee's own locals or inner calls (result_of, arg_of) means nothing
+		// to a caller: it is proved on the callee and simply not used here
+		internal := false
+		for _, p := range cl.Params {
+			if p.Kind != pkParam && p.Kind != pkResult {
+				internal = true
+			}
+		}
+		if internal {
+			continue
+		}
 		e.assume(st, e.evalClauseCall(cl, args, results, st, pre))
 	}
 	if sp.Assume {
